@@ -251,10 +251,17 @@ def rule_unnormalised_exponent(ctx):
     )
     SELECT = {"select", "select_any", "select_all", "_select_local_tids", "select_local"}
     ENVS = {"_maybe_compute_cell_env", "compute_plaquette_environments", "compute_environments", "compute_left_environments", "compute_right_environments"}
-    EVAL = {"contract", "to_dense"}
+    EVAL = {"contract", "to_dense", "singular_values"}
+
+    # state classes, and the flat / structured bases they inherit their routes from
+    state_bases = set()
+    for modname in ("quimb.tensor.tn1d.core", "quimb.tensor.tnag.core", "quimb.tensor.tn2d.core", "quimb.tensor.tn3d.core"):
+        for c in ctx.prog.modules[modname].classes.values():
+            if any(k.name.endswith("Vector") for k in c.mro):
+                state_bases.update(k.name for k in c.mro)
 
     def is_state_class(c):
-        return any(k.name.endswith("Vector") for k in c.mro)
+        return c.name in state_bases
 
     n = 0
     for modname in ("quimb.tensor.tn1d.core", "quimb.tensor.tnag.core", "quimb.tensor.tn2d.core", "quimb.tensor.tn3d.core"):
